@@ -65,6 +65,15 @@ def typing_answer(ctx_, line):
         return "!! " + ("TypingError" if "Typing" in type(e).__name__ or "numba" in type(e).__module__ else type(e).__name__)
 
 
+def typing_chunk(lines):
+    import vector
+    vector.register_numba()
+    from numba.core.registry import cpu_target
+    tc = cpu_target.typing_context
+    tc.refresh()
+    return [typing_answer(tc, q) for q in lines]
+
+
 def model_type(ans):
     if ans.startswith("->") and "::" in ans:
         return ans.split("::")[0].strip()
@@ -116,11 +125,6 @@ def same(a, b):
 
 
 def correspondence(ctx):
-    import vector
-    vector.register_numba()
-    from numba.core.registry import cpu_target
-    tc = cpu_target.typing_context
-    tc.refresh()
     r = C.rng(ctx.seed, "c07")
     selves = [(fl, s) for fl in "gm" for s in C.ALLSIGS]
     if ctx.tier == "quick":
@@ -136,7 +140,14 @@ def correspondence(ctx):
         for f2, s2 in r.sample(others, 8 if ctx.tier == "quick" else 40):
             for m in BINARY:
                 reqs.append(f"J {m} {me} v={symobj.vtoken(f2, s2, 2)}")
-    real = [typing_answer(tc, q) for q in reqs]
+    import multiprocessing as mp
+    nproc = min(12, os.cpu_count() or 4)
+    chunks = [reqs[i::nproc] for i in range(nproc)]
+    with mp.get_context("spawn").Pool(nproc) as pool:
+        parts = pool.map(typing_chunk, chunks)
+    real = [None] * len(reqs)
+    for i, part in enumerate(parts):
+        real[i::nproc] = part
     model = leanio.run_driver("GlueSym", reqs, build=["VectorModel.Gen.Exec.All", "VectorModel.Exec.Sym", "VectorModel.Glue.Numba"])
     dis, fails = [], []
     unsupported = 0
@@ -167,7 +178,6 @@ def correspondence(ctx):
         toks = [symobj.vtoken(fl, r.choice(C.SIGS[dim]), i + 1) for i in range(n)]    # same flavor: mixed flavor is the known finding
         jobs.append((src, toks))
     jobs.append(("def f(v, w):\n    return v.add(w)\n", ["g:xy:-:-:1", "m:rhophi:-:-:2"]))       # the known finding, for the record
-    import multiprocessing as mp
     with mp.get_context("spawn").Pool(min(12, os.cpu_count() or 4)) as pool:
         results = pool.map(probe_worker, jobs)
     known = 0
